@@ -70,6 +70,12 @@ def run(run, binfo):
             for roles in (ROLESETS if tier == 'thorough' else rng.sample(ROLESETS, 4)):
                 base = base_case(rules=rules, default=default, rule=('name', q), creds={'roles': roles},
                                  custom=custom)
+                others = [n for n in rules if n != q]
+                if others and rng.random() < 0.5:
+                    # "NAME's CURRENT definition": the names q refers to were defined differently when q was last
+                    # evaluated, and have been redefined in place since (q's own check objects are the same ones)
+                    base['prehistory'] = {n: rng.choice(['@', '!', 'role:r2', 'not role:r0', 'rule:' + UNDEF[0]])
+                                          for n in rng.sample(others, rng.randint(1, len(others)))}
                 cases.append(base)
                 meta.append(('orig', s_i, q, tuple(roles)))
                 if partner:
